@@ -67,11 +67,20 @@ def gen_layout(rng, keys: list[pathlib.PurePosixPath]) -> dict:
     """new fragment paths for the loaded trees: depth 0-4, '..'-climb distances 0-4, awkward names; suffix kept"""
     out = {}
     used = set()
+    # files of DIFFERENT resources may carry the same name at the same place (project "X.capella" using library "X.capella"):
+    # the resource label is part of a fragment's identity
+    gen_layout.n = getattr(gen_layout, "n", 0) + 1
+    same_name = (gen_layout.n % 3 == 1 or rng.random() < 0.2) and len({k.parts[0] for k in keys}) > 1
+    shared: dict = {}
     for k in keys:
         while True:
             depth = rng.randint(0, 4)
             dirs = [(next_name(rng) if rng.random() < 0.5 else rng.choice(["sub", "frag", "a"])) for _ in range(depth)]
             name = next_name(rng) + k.suffix
+            if same_name:
+                dirs, name = shared.setdefault(k.suffix, (dirs, name))
+                if pathlib.PurePosixPath(k.parts[0], *dirs, name) in used:
+                    dirs, name = dirs, next_name(rng) + k.suffix
             p = pathlib.PurePosixPath(k.parts[0], *dirs, name)
             if p not in used and not any(str(u).startswith(str(p) + "/") or str(p).startswith(str(u) + "/") for u in used):
                 used.add(p)
@@ -94,6 +103,7 @@ def run(chk: lib.Check):
         model = corpus.load(spec)
         loader = model._loader
         orig_trees = dict(loader.trees)
+        orig_names = {k: t.filename for k, t in orig_trees.items()}
         keys = list(orig_trees)
         # ---------- (1) verbatim reproduction of every link Capella wrote
         for frag, tree in orig_trees.items():
@@ -147,6 +157,8 @@ def run(chk: lib.Check):
         for layout in layouts:
             if layout is not None:
                 loader.trees = {layout[k]: t for k, t in orig_trees.items()}
+                for k, t in orig_trees.items():      # a ModelFile knows its path inside its resource
+                    t.filename = pathlib.PurePosixPath(*layout[k].parts[1:])
             frag_of = {}
             for k, t in loader.trees.items():
                 frag_of[id(t.root)] = k
@@ -198,6 +210,8 @@ def run(chk: lib.Check):
                                               incl, b(ty) if ty else None, b(uid)), b(link)))
                         resolve_cases.append((([b(x) for x in fa.parts], b(link)), [b(x) for x in fb.parts]))
         loader.trees = orig_trees
+        for k, t in orig_trees.items():
+            t.filename = orig_names[k]
         # ---------- (3) link lists: encode, split, resolve in order
         sem = [e for e in sample if "id" in e.attrib and fragment(e).suffix != ".afm"]
         for n in range(0, 7 if quick else 13):
